@@ -1,18 +1,18 @@
-(* C16, message layer: what send_tx hands to bits.sig, against the consensus signature hashes (Spec/Sighash.v legacy,
-   Spec/Bip143.v segwit v0).
-     * [segwit_messages_partial]: on the sub-domain  version = 1, locktime = 0, every reported unspent is an input and spends
-       the output whose index equals its position (the only case the code gets right), the message for input j IS the BIP143
-       pre-image of input j (through C11's bip143_exact);
-     * [legacy_preimage_one_input]: for a one-input transaction and hash type ALL / ALL|ANYONECANPAY (and SINGLE /
-       SINGLE|ANYONECANPAY when there is exactly one output) the legacy pre-image is the whole transaction followed by the
-       hash type - which is what send_tx signs;
-     * the ..._refuted theorems: the faithful model outside that sub-domain (kernel computation, witnesses). *)
+(* C16, message layer of the REPAIRED send_tx: what is handed to bits.sig for every selected input IS the consensus
+   signature-hash pre-image of that input (Spec/Bip143.v for the segwit kinds, Spec/Sighash.v for the legacy kinds):
+     * [segwit_messages]: every selected input j, any number of inputs, any output indices, any version / locktime, all six
+       flags: message j = Bip143.preimage t j (amount of input j) scriptCode flag          (through C11's bip143_exact);
+     * [legacy_sig_message_spec] / [legacy_messages]: tx.legacy_sig_message(txins, j, scriptcode, txouts, version, locktime,
+       flag) ++ flag(4 bytes, appended by utils.sig) = Sighash.legacy_preimage t j scriptcode flag for every flag and any
+       number of inputs; in the SIGHASH_SINGLE input-without-output case (consensus digest = 1, not a hash of any message)
+       the function refuses with ValueError - and in no other case. *)
 From Coq Require Import ZArith List Lia Bool.
 From Coq Require Import Floats.SpecFloat.
-Require Import Bits.Lib.Result Bits.Lib.Bytes Bits.Lib.CompactSize.
+Require Import Bits.Lib.Result Bits.Lib.Bytes Bits.Lib.PyStr Bits.Lib.CompactSize.
 Require Import Bits.Spec.Bip143 Bits.Spec.Sighash.
 Require Import Bits.Model.SendValue Bits.Model.Send.
-Require Bits.Model.Bip143 Bits.Proofs.Bip143 Bits.Proofs.Tx Bits.Model.Tx Bits.Proofs.SendValue Bits.Proofs.Send Bits.Proofs.CompactSize.
+Require Bits.Model.Bip143 Bits.Proofs.Bip143 Bits.Proofs.Tx Bits.Model.Tx Bits.Proofs.SendValue Bits.Proofs.Send
+        Bits.Proofs.CompactSize Bits.Model.CompactSize.
 Import ListNotations.
 Import Coq.Init.Byte.
 Local Open Scope Z_scope.
@@ -20,6 +20,7 @@ Local Open Scope result_scope.
 
 Module PB := Bits.Proofs.Bip143.
 Module PT := Bits.Proofs.Tx.
+Module MT := Bits.Model.Tx.
 
 Lemma Some_inj {A} (x y : A) : Some x = Some y -> x = y.
 Proof. congruence. Qed.
@@ -29,185 +30,250 @@ Section Segwit.
   Variable sha256 : bytes -> bytes.
   Variable sats : utxo -> Z.
 
-  (* what the code signs, exactly: for EVERY reported unspent x (selected or not) the BIP143 pre-image of input number
-     x.vout (the output index of the utxo!) of the transaction with version 1 and locktime 0 *)
-  Theorem segwit_message_actual (t : tx) script f : forall (unspents : list utxo) msgs,
-    wf_tx t -> tx_version t = 1 -> tx_locktime t = 0 -> standard_flag f ->
+  (* message_is_sighash, segwit kinds: full domain *)
+  Theorem segwit_messages (t : tx) script f : forall (selected : list utxo) (k : nat) msgs,
+    wf_tx t -> standard_flag f ->
     Z.of_nat (length script) < 2 ^ 64 ->
-    (forall x, In x unspents ->
-               0 <= u_vout x < Z.of_nat (length (tx_ins t)) /\
-               sat_of_btc (u_amount x) = Ok (sats x) /\ 0 <= sats x < 2 ^ 64) ->
-    segwit_msgs sha256 (map ser_txin (tx_ins t)) (map ser_txout (tx_outs t)) (ser_script script) (Some f) unspents
-      = Ok msgs ->
-    forall i x, nth_error unspents i = Some x ->
-      exists m, nth_error msgs i = Some m /\ preimage sha256 t (Z.to_nat (u_vout x)) (sats x) script f = Some m.
+    (k + length selected <= length (tx_ins t))%nat ->
+    (forall x, In x selected -> sat_of_btc (u_amount x) = Ok (sats x) /\ 0 <= sats x < 2 ^ 64) ->
+    segwit_msgs sha256 (map ser_txin (tx_ins t)) (map ser_txout (tx_outs t)) (ser_script script)
+                (tx_version t) (tx_locktime t) (Some f) (Z.of_nat k) selected = Ok msgs ->
+    forall i x, nth_error selected i = Some x ->
+      exists m, nth_error msgs i = Some m /\ preimage sha256 t (k + i) (sats x) script f = Some m.
   Proof.
-    induction unspents as [|u rest IH]; intros msgs Hwf Hv Hl Hf Hs Hall H i x Hi.
+    induction selected as [|u rest IH]; intros k msgs Hwf Hf Hs Hlen Hall H i x Hi.
     - destruct i; discriminate.
-    - unfold segwit_msgs in H. apply PT.mapM_cons_inv in H as (m0 & ms & H0 & Hrest & ->).
+    - cbn [segwit_msgs] in H.
+      apply bind_ok in H as (amt & Ha & H). apply bind_ok in H as (m0 & H0 & H).
+      apply bind_ok in H as (ms & Hrest & H). injection H as <-.
+      destruct (Hall u (or_introl eq_refl)) as (Es & Rs). rewrite Es in Ha. injection Ha as <-.
       destruct i as [|i].
-      + cbn [nth_error] in Hi. injection Hi as <-.
-        destruct (Hall u (or_introl eq_refl)) as (Ev & Es & Rs).
-        rewrite Es in H0. cbn [bind] in H0.
-        destruct (PB.bip143_exact sha256 t (Z.to_nat (u_vout u)) (sats u) script f Hwf) as (pm & Pp & _ & _ & _ & _ & W);
-          [lia | exact Rs | exact Hs | exact Hf |].
-        rewrite Z2Nat.id in W by lia.
-        rewrite Hv, Hl in W. rewrite W in H0. injection H0 as <-.
-        exists pm. split; [reflexivity | exact Pp].
-      + cbn [nth_error] in Hi |- *. apply (IH ms); auto. intros y Hy. apply Hall. right; exact Hy.
+      + cbn [nth_error] in Hi. injection Hi as <-. rewrite Nat.add_0_r.
+        destruct (PB.bip143_exact sha256 t k (sats u) script f Hwf) as (pm & Pp & _ & _ & _ & _ & W);
+          [cbn [length] in Hlen; lia | exact Rs | exact Hs | exact Hf |].
+        rewrite W in H0. injection H0 as <-. exists pm. split; [reflexivity | exact Pp].
+      + cbn [nth_error] in Hi |- *.
+        replace (k + S i)%nat with (S k + i)%nat by lia.
+        replace (Z.of_nat k + 1) with (Z.of_nat (S k)) in Hrest by lia.
+        apply (IH (S k) ms); auto.
+        * cbn [length] in Hlen. lia.
+        * intros y Hy. apply Hall. right; exact Hy.
   Qed.
-
-  (* message_is_sighash, segwit kinds, on the sub-domain where the code is right *)
-  Theorem segwit_messages_partial (t : tx) script f (unspents : list utxo) msgs :
-    wf_tx t -> tx_version t = 1 -> tx_locktime t = 0 -> standard_flag f ->
-    Z.of_nat (length script) < 2 ^ 64 ->
-    length unspents = length (tx_ins t) ->                              (* every reported unspent is an input *)
-    (forall j x, nth_error unspents j = Some x ->
-                 u_vout x = Z.of_nat j /\                               (* ... spending output index = its position *)
-                 sat_of_btc (u_amount x) = Ok (sats x) /\ 0 <= sats x < 2 ^ 64) ->
-    segwit_msgs sha256 (map ser_txin (tx_ins t)) (map ser_txout (tx_outs t)) (ser_script script) (Some f) unspents
-      = Ok msgs ->
-    forall j x, nth_error unspents j = Some x ->
-      exists m, nth_error msgs j = Some m /\ preimage sha256 t j (sats x) script f = Some m.
-  Proof.
-    intros Hwf Hv Hl Hf Hs Hlen Hall H j x Hj.
-    destruct (segwit_message_actual t script f unspents msgs Hwf Hv Hl Hf Hs) with (i := j) (x := x) as (m & Em & Pm); auto.
-    - intros y Hy. apply In_nth_error in Hy as (q & Hq). destruct (Hall q y Hq) as (Ev & Es & Rs).
-      split; [|split; assumption]. rewrite Ev.
-      assert (q < length unspents)%nat by (apply nth_error_Some; congruence). lia.
-    - exists m. split; [exact Em|]. destruct (Hall j x Hj) as (Ev & _). rewrite Ev, Nat2Z.id in Pm. exact Pm.
-  Qed.
-
-  (* ---- why the messages are wrong outside that sub-domain (for every transaction, not only for a witness) ---- *)
-  Definition with_defaults (t : tx) : tx := mk_tx 1 (tx_ins t) (tx_outs t) 0.     (* what witness_message is told *)
-
-  Lemma preimage_version_neq (t t' : tx) i i' amount amount' script script' f f' m m' :
-    u32le (tx_version t) <> u32le (tx_version t') ->
-    preimage sha256 t i amount script f = Some m -> preimage sha256 t' i' amount' script' f' = Some m' -> m <> m'.
-  Proof.
-    unfold preimage. intros Hv. destruct (nth_error (tx_ins t) i) as [inp|]; [|discriminate].
-    destruct (nth_error (tx_ins t') i') as [inp'|]; [|discriminate].
-    intros H H' E. apply Some_inj in H, H'. subst m m'.
-    apply (f_equal (firstn 4)) in E. unfold u32le in *.
-    rewrite !PB.firstn_app_len in E by apply to_le_length. contradiction.
-  Qed.
-
-  Lemma preimage_locktime_neq (t t' : tx) i amount script f m m' :
-    tx_ins t = tx_ins t' -> tx_outs t = tx_outs t' -> tx_version t = tx_version t' ->
-    u32le (tx_locktime t) <> u32le (tx_locktime t') ->
-    preimage sha256 t i amount script f = Some m -> preimage sha256 t' i amount script f = Some m' -> m <> m'.
-  Proof.
-    unfold preimage, hash_prevouts, hash_sequence, hash_outputs. intros Ei Eo Ev Hl. rewrite <- Ei, <- Eo, <- Ev.
-    destruct (nth_error (tx_ins t) i) as [inp|]; [|discriminate].
-    intros H H' E. apply Some_inj in H, H'. subst m m'.
-    do 8 apply app_inv_head in E. apply (f_equal (firstn 4)) in E. unfold u32le in *.
-    rewrite !PB.firstn_app_len in E by apply to_le_length. contradiction.
-  Qed.
-
-  Lemma preimage_index_neq (t : tx) i j a b amount amount' script f m m' :
-    nth_error (tx_ins t) i = Some a -> nth_error (tx_ins t) j = Some b ->
-    length (ti_txid a) = 32%nat -> length (ti_txid b) = 32%nat -> ser_outpoint a <> ser_outpoint b ->
-    preimage sha256 t i amount script f = Some m -> preimage sha256 t j amount' script f = Some m' -> m <> m'.
-  Proof.
-    unfold preimage. intros Ea Eb La Lb Hne. rewrite Ea, Eb.
-    intros H H' E. apply Some_inj in H, H'. subst m m'.
-    do 3 apply app_inv_head in E. apply (f_equal (firstn 36)) in E.
-    rewrite !PB.firstn_app_len in E by (unfold ser_outpoint, u32le; rewrite app_length, to_le_length; lia).
-    contradiction.
-  Qed.
-  (* ---- the three segwit findings, for EVERY transaction of the class (not only a witness) ---- *)
-  Section Wrong.
-    Variable t : tx.                         (* the transaction send_tx returns (its structured form) *)
-    Variables (script : bytes) (f : Z) (unspents : list utxo) (msgs : list bytes).
-    Hypothesis Hwf : wf_tx t.
-    Hypothesis Hf : standard_flag f.
-    Hypothesis Hs : Z.of_nat (length script) < 2 ^ 64.
-    Hypothesis Hall : forall x, In x unspents ->
-                                0 <= u_vout x < Z.of_nat (length (tx_ins t)) /\
-                                sat_of_btc (u_amount x) = Ok (sats x) /\ 0 <= sats x < 2 ^ 64.
-    (* witness_message is called without version / locktime: it is told [with_defaults t] *)
-    Hypothesis Hmsgs :
-      segwit_msgs sha256 (map ser_txin (tx_ins t)) (map ser_txout (tx_outs t)) (ser_script script) (Some f) unspents
-      = Ok msgs.
-
-    Lemma wf_with_defaults : wf_tx (with_defaults t).
-    Proof. destruct Hwf as (_ & _ & Hi & Ho). unfold wf_tx, with_defaults. cbn. repeat split; auto; lia. Qed.
-
-    Lemma actual_message i x m :
-      nth_error unspents i = Some x -> nth_error msgs i = Some m ->
-      preimage sha256 (with_defaults t) (Z.to_nat (u_vout x)) (sats x) script f = Some m.
-    Proof.
-      intros Hi Hm.
-      destruct (segwit_message_actual (with_defaults t) script f unspents msgs wf_with_defaults eq_refl eq_refl Hf Hs Hall Hmsgs i x Hi)
-        as (m1 & E1 & P1).
-      rewrite Hm in E1. injection E1 as <-. exact P1.
-    Qed.
-
-    (* version <> 1: NO message is the consensus pre-image of ANY input *)
-    Theorem segwit_version_wrong i x m :
-      u32le (tx_version t) <> u32le 1 ->
-      nth_error unspents i = Some x -> nth_error msgs i = Some m ->
-      forall j amount pre, preimage sha256 t j amount script f = Some pre -> m <> pre.
-    Proof.
-      intros Hv Hi Hm j amount pre Hp. pose proof (actual_message i x m Hi Hm) as Ha.
-      apply not_eq_sym. eapply preimage_version_neq; [|exact Hp|exact Ha]. exact Hv.
-    Qed.
-
-    (* locktime <> 0: the message built for x is not the pre-image of the input it was computed for *)
-    Theorem segwit_locktime_wrong i x m :
-      tx_version t = 1 -> u32le (tx_locktime t) <> u32le 0 ->
-      nth_error unspents i = Some x -> nth_error msgs i = Some m ->
-      forall pre, preimage sha256 t (Z.to_nat (u_vout x)) (sats x) script f = Some pre -> m <> pre.
-    Proof.
-      intros Hv Hl Hi Hm pre Hp. pose proof (actual_message i x m Hi Hm) as Ha.
-      apply not_eq_sym. eapply preimage_locktime_neq; [| | | |exact Hp|exact Ha]; auto.
-    Qed.
-
-    (* output index <> position: the message placed at position i is the pre-image of ANOTHER input *)
-    Theorem segwit_vout_index_wrong i x m a b :
-      nth_error unspents i = Some x -> nth_error msgs i = Some m ->
-      nth_error (tx_ins t) i = Some a -> nth_error (tx_ins t) (Z.to_nat (u_vout x)) = Some b ->
-      ser_outpoint a <> ser_outpoint b ->                       (* distinct outpoints: in particular u_vout x <> i *)
-      forall amount pre, preimage sha256 (with_defaults t) i amount script f = Some pre -> m <> pre.
-    Proof.
-      intros Hi Hm Ea Eb Hne amount pre Hp. pose proof (actual_message i x m Hi Hm) as Ha.
-      destruct Hwf as (_ & _ & Hins & _). rewrite Forall_forall in Hins.
-      eapply (preimage_index_neq (with_defaults t)); [exact Eb|exact Ea| | | |exact Ha|exact Hp].
-      - apply Hins. eapply nth_error_In; exact Eb.
-      - apply Hins. eapply nth_error_In; exact Ea.
-      - intros E. apply Hne. symmetry. exact E.
-    Qed.
-  End Wrong.
 End Segwit.
 
-(* the p2wsh scriptCode `len(redeem_script).to_bytes(1, "big") + redeem_script` is the CompactSize-prefixed script exactly
-   below 253 bytes *)
-Lemma one_byte_scriptcode (redeem : bytes) :
-  Z.of_nat (length redeem) < 253 ->
-  to_be_chk 1 (Z.of_nat (length redeem)) = Ok (cs_enc (Z.of_nat (length redeem))).
+(* the scriptCode of the p2wsh kinds is the CompactSize-prefixed witness script, for every length *)
+Lemma scriptcode_wsh p a n G sha256 ripemd160 (k : keyinfo) :
+  is_kind (ki_type k) [k_p2wpkh; k_p2sh_p2wpkh] = false ->
+  Z.of_nat (length (ki_redeem k)) < 2 ^ 64 ->
+  scriptcode_of p a n G sha256 ripemd160 k = Ok (ser_script (ki_redeem k)).
 Proof.
-  intros H. unfold to_be_chk, cs_enc.
-  assert (R : 0 <= Z.of_nat (length redeem) < 253) by lia. revert R.
-  generalize (Z.of_nat (length redeem)) as z. intros z R.
-  change (256 ^ Z.of_nat 1) with 256.
-  destruct (Z.leb_spec 0 z); [|lia]. destruct (Z.ltb_spec z 256); [|lia]. cbn [andb].
-  destruct (Z.ltb_spec z 253); [|lia]. reflexivity.
+  intros Hk Hl. unfold scriptcode_of. rewrite Hk. unfold lenZ.
+  rewrite Bits.Proofs.CompactSize.compact_size_uint_spec by lia. reflexivity.
 Qed.
 
 (* ---------------------------------------------------------------- legacy kinds *)
-Lemma legacy_preimage_one_input (v lt : Z) (i0 : tx_input) (outs : list tx_output) (ht : Z) :
-  ht = 1 \/ ht = 0x81 \/ ((ht = 3 \/ ht = 0x83) /\ length outs = 1%nat) ->
-  let t := mk_tx v [i0] outs lt in
-  legacy_preimage t 0 (ti_script i0) ht = Some (ser_legacy t ++ u32le ht).
+Lemma txin_spec op sc sq : Z.of_nat (length sc) < 2 ^ 64 -> MT.txin op sc sq = Ok (op ++ ser_script sc ++ sq).
 Proof.
-  intros H t. destruct i0 as [txid vout sc sq]. subst t.
-  destruct H as [->|[->|[[->| ->] Hl]]];
-    try (destruct outs as [|o [|o' outs']]; try discriminate Hl); reflexivity.
+  intros H. unfold MT.txin. rewrite Bits.Proofs.CompactSize.compact_size_uint_spec by lia. cbn [bind].
+  unfold ser_script. now rewrite <- !app_assoc.
 Qed.
 
+Lemma nth_error_mapi_from {A B} (f : nat -> A -> B) : forall l k i,
+  nth_error (mapi_from f k l) i = option_map (f (k + i)%nat) (nth_error l i).
+Proof.
+  induction l as [|x l IH]; intros k i; destruct i; cbn [mapi_from nth_error option_map]; auto.
+  - now rewrite Nat.add_0_r.
+  - rewrite IH. now replace (S k + i)%nat with (k + S i)%nat by lia.
+Qed.
 
-(* ---- the bytes of tx() in terms of the specification serialiser ---- *)
-Module MT := Bits.Model.Tx.
+Lemma mapi_from_length {A B} (f : nat -> A -> B) : forall l k, length (mapi_from f k l) = length l.
+Proof. induction l as [|x l IH]; intros k; cbn [mapi_from length]; auto. Qed.
+
+Lemma firstn1_skipn {A} (l : list A) i x : nth_error l i = Some x -> firstn 1 (skipn i l) = [x].
+Proof.
+  revert i. induction l as [|y l IH]; intros i H; destruct i; try discriminate.
+  - injection H as <-. reflexivity.
+  - cbn [skipn nth_error] in *. now apply IH.
+Qed.
+
+Lemma legacy_ins_spec zs idx sc : forall ins k,
+  Forall wf_txin ins -> Z.of_nat (length sc) < 2 ^ 64 ->
+  legacy_ins zs (Z.of_nat idx) sc (Z.of_nat k) (map ser_txin ins)
+  = Ok (map ser_txin (mapi_from (legacy_input zs idx sc) k ins)).
+Proof.
+  induction ins as [|i ins IH]; intros k Hwf Hs; [reflexivity|].
+  inversion Hwf as [|? ? Hi Hrest]; subst. destruct Hi as (Lt & Rv & Rq & Rl).
+  cbn [map legacy_ins mapi_from].
+  rewrite (PB.outpoint_slice i Lt), (PB.sequence_slice i).
+  replace (Z.of_nat k + 1) with (Z.of_nat (S k)) by lia. rewrite (IH (S k) Hrest Hs).
+  destruct (Nat.eqb_spec k idx) as [E|E].
+  - subst k. rewrite Z.eqb_refl. rewrite (txin_spec _ _ _ Hs). cbn [bind].
+    assert (EL : legacy_input zs idx sc idx i = Bits.Spec.Bip143.mk_txin (ti_txid i) (ti_vout i) sc (ti_seq i)).
+    { unfold legacy_input. now rewrite Nat.eqb_refl. }
+    rewrite EL. reflexivity.
+  - destruct (Z.eqb_spec (Z.of_nat k) (Z.of_nat idx)) as [E'|_]; [lia|].
+    rewrite txin_spec by (cbn; lia). cbn [bind].
+    assert (EL : legacy_input zs idx sc k i = Bits.Spec.Bip143.mk_txin (ti_txid i) (ti_vout i) [] (if zs then 0 else ti_seq i)).
+    { unfold legacy_input. apply Nat.eqb_neq in E. now rewrite E. }
+    rewrite EL. unfold ser_txin, ser_outpoint. cbn [ti_txid ti_vout ti_script ti_seq].
+    destruct zs; reflexivity.
+Qed.
+
+Lemma map_repeat' {A B} (f : A -> B) x n : map f (repeat x n) = repeat (f x) n.
+Proof. induction n; cbn [repeat map]; congruence. Qed.
+
+Lemma blank_txout_spec : MT.txout 0xFFFFFFFFFFFFFFFF [] = Ok (ser_txout minus_one_out).
+Proof. reflexivity. Qed.
+
+Lemma tx_bytes_ser_legacy v (ins : list tx_input) (outs : list tx_output) lt :
+  PT.tx_bytes false v (map ser_txin ins) (map ser_txout outs) [] lt = ser_legacy (mk_tx v ins outs lt).
+Proof.
+  unfold PT.tx_bytes, ser_legacy, u32le. cbn [tx_version tx_ins tx_outs tx_locktime app].
+  now rewrite !map_length.
+Qed.
+
+Section LegacyMessage.
+  Variable t : tx.
+  Hypothesis Hwf : wf_tx t.
+  Hypothesis Hnin : Z.of_nat (length (tx_ins t)) < 2 ^ 64.
+  Hypothesis Hnout : Z.of_nat (length (tx_outs t)) < 2 ^ 64.
+
+  Notation msg_of idx sc f :=
+    (legacy_sig_message (map ser_txin (tx_ins t)) (Z.of_nat idx) sc (map ser_txout (tx_outs t))
+                        (tx_version t) (tx_locktime t) f).
+
+  Lemma quirk_test (idx : nat) f :
+    ((Z.land f 31 =? 3) && (lenZ (map ser_txout (tx_outs t)) <=? Z.of_nat idx))
+    = (is_single f && (length (tx_outs t) <=? idx)%nat).
+  Proof.
+    unfold is_single, SIGHASH_SINGLE, lenZ. rewrite map_length. f_equal.
+    destruct (Nat.leb_spec (length (tx_outs t)) idx); [apply Z.leb_le | apply Z.leb_gt]; lia.
+  Qed.
+
+  (* the pre-image exists, and it is the message followed by the 4-byte hash type (which utils.sig appends) *)
+  Theorem legacy_sig_message_spec (idx : nat) (sc : bytes) (f : Z) :
+    (idx < length (tx_ins t))%nat -> Z.of_nat (length sc) < 2 ^ 64 ->
+    (is_single f && (length (tx_outs t) <=? idx)%nat) = false ->
+    exists m, msg_of idx sc f = Ok m /\ legacy_preimage t idx sc f = Some (m ++ u32le f).
+  Proof.
+    intros Hidx Hs Hq. destruct Hwf as (Rv & Rl & Hins & Houts).
+    destruct (nth_error (tx_ins t) idx) as [inp|] eqn:Einp; [|apply nth_error_None in Einp; lia].
+    unfold legacy_sig_message, legacy_preimage. rewrite Einp, Hq.
+    (* index in range *)
+    assert (Hr : ((0 <=? Z.of_nat idx) && (Z.of_nat idx <? lenZ (map ser_txin (tx_ins t)))) = true).
+    { unfold lenZ. rewrite map_length. apply andb_true_intro. split; [apply Z.leb_le | apply Z.ltb_lt]; lia. }
+    rewrite Hr. cbn [negb].
+    rewrite quirk_test, Hq.
+    (* the inputs *)
+    change ((Z.land f 31 =? 2) || (Z.land f 31 =? 3)) with (is_none f || is_single f).
+    change 0 with (Z.of_nat 0) at 1.
+    rewrite (legacy_ins_spec (is_none f || is_single f) idx sc (tx_ins t) 0 Hins Hs). cbn [bind].
+    set (ins' := mapi_from (legacy_input (is_none f || is_single f) idx sc) 0 (tx_ins t)).
+    assert (Einp' : nth_error ins' idx = Some (legacy_input false idx sc idx inp)).
+    { subst ins'. rewrite nth_error_mapi_from, Einp. cbn [option_map Nat.add]. f_equal.
+      unfold legacy_input. now rewrite Nat.eqb_refl. }
+    unfold anyonecanpay, SIGHASH_ANYONECANPAY.
+    (* the outputs *)
+    assert (Eouts : exists outs2,
+               (if Z.land f 31 =? 2 then Ok []
+                else if Z.land f 31 =? 3 then
+                       blank <- MT.txout 18446744073709551615 [] ;;
+                       o <- Bits.Model.Bip143.py_index (map ser_txout (tx_outs t)) (Z.of_nat idx) ;;
+                       Ok (repeat blank (Z.to_nat (Z.of_nat idx)) ++ [o])
+                     else Ok (map ser_txout (tx_outs t))) = Ok (map ser_txout outs2) /\
+               outs2 = (if is_none f then []
+                        else if is_single f then repeat minus_one_out idx ++ firstn 1 (skipn idx (tx_outs t))
+                             else tx_outs t) /\
+               Z.of_nat (length outs2) < 2 ^ 64).
+    { unfold is_none, is_single, SIGHASH_NONE, SIGHASH_SINGLE in *.
+      destruct (Z.land f 31 =? 2) eqn:E2; [exists []; repeat split; cbn; lia|].
+      destruct (Z.land f 31 =? 3) eqn:E3.
+      - cbn [andb] in Hq. apply Nat.leb_gt in Hq.
+        destruct (nth_error (tx_outs t) idx) as [o|] eqn:Eo; [|apply nth_error_None in Eo; lia].
+        exists (repeat minus_one_out idx ++ [o]). rewrite (firstn1_skipn _ _ _ Eo). split; [|split; [reflexivity|]].
+        + rewrite blank_txout_spec. cbn [bind]. rewrite (PB.py_index_map_nat ser_txout _ _ _ Eo). cbn [bind].
+          rewrite Nat2Z.id, map_app, map_repeat'. reflexivity.
+        + rewrite app_length, repeat_length. cbn [length]. lia.
+      - exists (tx_outs t). repeat split; auto. }
+    destruct Eouts as (outs2 & Eo1 & Eo2 & Lo).
+    destruct (Z.land f 128 =? 0) eqn:Eacp; cbn [negb bind].
+    - rewrite Eo1. cbn [bind]. rewrite <- Eo2.
+      rewrite PT.tx_raw_ok; try lia.
+      2:{ rewrite map_length. subst ins'. rewrite mapi_from_length. exact Hnin. }
+      2:{ rewrite map_length. exact Lo. }
+      eexists. split; [reflexivity|]. rewrite tx_bytes_ser_legacy. reflexivity.
+    - rewrite (PB.py_index_map_nat ser_txin _ _ _ Einp'). cbn [bind]. rewrite Eo1. cbn [bind]. rewrite <- Eo2.
+      change [ser_txin (legacy_input false idx sc idx inp)] with (map ser_txin [legacy_input false idx sc idx inp]).
+      rewrite PT.tx_raw_ok; try lia.
+      2:{ cbn. lia. }
+      2:{ rewrite map_length. exact Lo. }
+      eexists. split; [reflexivity|]. rewrite tx_bytes_ser_legacy. reflexivity.
+  Qed.
+
+  (* the SIGHASH_SINGLE input-without-output case: refused, exactly where the consensus digest is the constant 1 *)
+  Theorem legacy_sig_message_single_quirk (idx : nat) (sc : bytes) (f : Z) (sha256 : bytes -> bytes) :
+    (idx < length (tx_ins t))%nat ->
+    (is_single f && (length (tx_outs t) <=? idx)%nat) = true ->
+    msg_of idx sc f = Err ValueE /\ legacy_sighash sha256 t idx sc f = Some uint256_one.
+  Proof.
+    intros Hidx Hq. split.
+    - unfold legacy_sig_message.
+      assert (Hr : ((0 <=? Z.of_nat idx) && (Z.of_nat idx <? lenZ (map ser_txin (tx_ins t)))) = true).
+      { unfold lenZ. rewrite map_length. apply andb_true_intro. split; [apply Z.leb_le | apply Z.ltb_lt]; lia. }
+      rewrite Hr. cbn [negb]. rewrite quirk_test, Hq. reflexivity.
+    - unfold legacy_sighash.
+      destruct (nth_error (tx_ins t) idx) eqn:E; [|apply nth_error_None in E; lia]. now rewrite Hq.
+  Qed.
+
+  (* ---- the list comprehension of send_tx: every input signs its own message, scriptcode = the scriptSig it carries ---- *)
+  Lemma txin_deser_ser (i : tx_input) :
+    wf_txin i -> exists d, MT.txin_deser (ser_txin i) = Ok (d, []) /\ MT.ti_script d = ti_script i.
+  Proof.
+    intros (Lt & Rv & Rq & Rl).
+    set (mi := MT.mk_txin (ti_txid i) (ti_vout i) (ti_script i) (u32le (ti_seq i))).
+    assert (E : ser_txin i = PT.txin_bytes mi).
+    { unfold ser_txin, ser_outpoint, ser_script, PT.txin_bytes, mi, u32le. cbn. now rewrite <- !app_assoc. }
+    assert (W : MT.wf_txin mi).
+    { unfold MT.wf_txin, mi. cbn [MT.ti_txid MT.ti_vout MT.ti_script MT.ti_seq]. unfold u32le. rewrite to_le_length.
+      repeat split; auto; lia. }
+    exists mi. split; [|reflexivity].
+    rewrite E, <- (app_nil_r (PT.txin_bytes mi)). apply PT.txin_roundtrip; [exact W | apply PT.txin_ser_ok; exact W].
+  Qed.
+
+  Theorem legacy_messages (f : Z) : forall (rest : list tx_input) (k : nat) msgs,
+    (forall j i, nth_error rest j = Some i -> nth_error (tx_ins t) (k + j) = Some i) ->
+    legacy_msgs (map ser_txin (tx_ins t)) (map ser_txout (tx_outs t)) (tx_version t) (tx_locktime t) f
+                (Z.of_nat k) (map ser_txin rest) = Ok msgs ->
+    forall j i, nth_error rest j = Some i ->
+      (is_single f && (length (tx_outs t) <=? k + j)%nat) = false /\          (* never the digest-1 case: that is refused *)
+      exists m, nth_error msgs j = Some m /\ legacy_preimage t (k + j) (ti_script i) f = Some (m ++ u32le f).
+  Proof.
+    induction rest as [|i0 rest IH]; intros k msgs Hsub H j i Hj.
+    - destruct j; discriminate.
+    - cbn [map legacy_msgs] in H.
+      assert (Hin0 : nth_error (tx_ins t) (k + 0) = Some i0) by (apply Hsub; reflexivity).
+      rewrite Nat.add_0_r in Hin0.
+      assert (Hw0 : wf_txin i0).
+      { destruct Hwf as (_ & _ & Hins & _). rewrite Forall_forall in Hins. apply Hins. eapply nth_error_In; eauto. }
+      destruct (txin_deser_ser i0 Hw0) as (d & Ed & Esc). rewrite Ed in H. cbn [bind] in H. cbn beta iota in H.
+      apply bind_ok in H as (m0 & H0 & H). apply bind_ok in H as (ms & Hrest & H). injection H as <-.
+      destruct j as [|j].
+      + cbn [nth_error] in Hj. injection Hj as <-. rewrite Nat.add_0_r.
+        assert (Hk : (k < length (tx_ins t))%nat) by (apply nth_error_Some; congruence).
+        rewrite Esc in H0.
+        destruct (is_single f && (length (tx_outs t) <=? k)%nat) eqn:Q.
+        { destruct (legacy_sig_message_single_quirk k (ti_script i0) f (fun x => x) Hk Q) as (E & _). congruence. }
+        split; [reflexivity|].
+        destruct (legacy_sig_message_spec k (ti_script i0) f Hk) as (m & Em & Pm); [apply Hw0 | exact Q |].
+        rewrite Em in H0. injection H0 as <-. exists m. split; [reflexivity|exact Pm].
+      + cbn [nth_error] in Hj |- *. replace (k + S j)%nat with (S k + j)%nat by lia.
+        replace (Z.of_nat k + 1) with (Z.of_nat (S k)) in Hrest by lia.
+        apply (IH (S k) ms); auto.
+        intros j' i' Hj'. replace (S k + j')%nat with (k + S j')%nat by lia. apply Hsub. exact Hj'.
+  Qed.
+End LegacyMessage.
+
+(* ---------------------------------------------------------------- from build_unsigned to the structured transaction *)
 Definition spec_in (i : MT.txin_t) : tx_input :=
   Bits.Spec.Bip143.mk_txin (MT.ti_txid i) (MT.ti_vout i) (MT.ti_script i) (of_le (MT.ti_seq i)).
 Definition spec_out (o : MT.txout_t) : tx_output := Bits.Spec.Bip143.mk_txout (MT.to_value o) (MT.to_script o).
@@ -223,71 +289,59 @@ Qed.
 Lemma txout_bytes_spec o : PT.txout_bytes o = ser_txout (spec_out o).
 Proof. reflexivity. Qed.
 
-Lemma tx_bytes_spec v ins outs lt :
-  Forall (fun i => length (MT.ti_seq i) = 4%nat) ins ->
-  PT.tx_bytes false v (map PT.txin_bytes ins) (map PT.txout_bytes outs) [] lt =
-  ser_legacy (mk_tx v (map spec_in ins) (map spec_out outs) lt).
-Proof.
-  intros H. unfold PT.tx_bytes, ser_legacy. cbn [tx_version tx_ins tx_outs tx_locktime app].
-  rewrite !map_length, !map_map.
-  rewrite (map_ext_in PT.txin_bytes (fun x => ser_txin (spec_in x))).
-  2:{ intros x Hx. apply txin_bytes_spec. rewrite Forall_forall in H. now apply H. }
-  reflexivity.
-Qed.
-
-Section Legacy.
+Section Structured.
   Variables p a n : Z.
   Variable G : Bits.Model.Ecmath.point.
   Variable sha256 ripemd160 : bytes -> bytes.
   Variable scriptpubkey : bytes -> result bytes.
+  Variable is_address : bytes -> bool.
 
-  (* message_is_sighash, legacy kinds, on the sub-domain where the code is right: ONE selected input (any output index,
-     any version / locktime) and a hash type whose pre-image is the unmodified transaction.  The message handed to
-     bits.sig is tx_ (msg_preimage=False: sig appends the 4-byte hash type itself). *)
-  Theorem legacy_message_partial sender recipient change k frac fee version locktime total unspents u x txi tx_ ht :
-    build_unsigned p a n G sha256 ripemd160 scriptpubkey sender recipient change (Some k) frac fee total unspents = Ok u ->
-    us_selected u = [(x, txi)] ->
-    is_kind (ki_type k) [k_p2pk; k_p2pkh; k_multisig; k_p2sh] = true ->
-    MT.tx_raw (map snd (us_selected u)) (us_txouts u) version locktime [] = Ok tx_ ->
-    ht = 1 \/ ht = 0x81 \/ ((ht = 3 \/ ht = 0x83) /\ length (us_txouts u) = 1%nat) ->
-    exists sc t,
-      sc = (if is_kind (ki_type k) [k_p2pk; k_p2pkh; k_multisig] then u_spk x else ki_redeem k) /\
-      tx_ins t = [Bits.Spec.Bip143.mk_txin (rev (u_txid x)) (u_vout x) sc 0xffffffff] /\
-      tx_version t = version /\ tx_locktime t = locktime /\
-      ser_legacy t = tx_ /\
-      legacy_preimage t 0 sc ht = Some (tx_ ++ to_le 4 ht).
+  (* the structured input send_tx builds for the reported output x *)
+  Definition selected_input (ki : option keyinfo) (xt : utxo * bytes) (i : tx_input) : Prop :=
+    exists ss, loop_scriptsig p a n G sha256 ripemd160 ki (fst xt) = Ok ss /\
+               i = Bits.Spec.Bip143.mk_txin (rev (u_txid (fst xt))) (u_vout (fst xt)) ss 0xffffffff /\
+               snd xt = ser_txin i /\ wf_txin i.
+
+  Lemma selected_inputs_exist ki (sel : list (utxo * bytes)) :
+    Forall (fun xt => length (u_txid (fst xt)) = 32%nat /\ Bits.Proofs.Send.reported_input p a n G sha256 ripemd160 ki xt) sel ->
+    exists ins, Forall2 (selected_input ki) sel ins.
   Proof.
-    intros Hb Hsel Hkind Hraw Hht.
-    apply Bits.Proofs.Send.build_inv in Hb as (ta & rs & chs & _ & _ & Hselect & _ & _ & _ & Houts).
-    apply Bits.Proofs.SendValue.select_mk_ok in Hselect. rewrite Hsel in Hselect.
-    inversion Hselect as [|? ? Hmk _]; subst. cbn [fst snd] in Hmk.
-    apply Bits.Proofs.Send.mk_txin_inv in Hmk as (ss & Hss & Rv & Rl & Etxi). cbn [fst snd] in *.
-    (* the scriptSig the loop placed *)
-    assert (Ess : ss = if is_kind (ki_type k) [k_p2pk; k_p2pkh; k_multisig] then u_spk x else ki_redeem k).
-    { unfold loop_scriptsig in Hss.
-      destruct (is_kind (ki_type k) [k_p2pk; k_p2pkh; k_multisig]) eqn:E1; [now injection Hss|].
-      destruct (is_kind (ki_type k) [k_p2sh]) eqn:E2; [now injection Hss|].
-      exfalso. unfold is_kind in *. cbn [existsb] in *.
-      repeat match goal with H : _ || _ = false |- _ => apply orb_false_iff in H as [? ?] end.
-      repeat match goal with H : bytes_eqb _ _ = false |- _ => rewrite H in Hkind end. discriminate. }
-    rewrite Hsel in Hraw. cbn [map snd] in Hraw.
-    apply PT.tx_raw_inv in Hraw as (_ & _ & _ & _ & ->).
-    set (i0 := Bits.Proofs.Send.input_of x ss) in *.
-    set (o1 := MT.mk_txout (us_to_send u - fee) rs) in *.
-    set (o2 := MT.mk_txout (us_total u - us_to_send u) chs) in *.
-    set (outs := if us_total u - us_to_send u >=? dust_limit then [o1; o2] else [o1]).
-    assert (Eouts : us_txouts u = map PT.txout_bytes outs).
-    { rewrite Houts. subst outs. destruct (us_total u - us_to_send u >=? dust_limit); reflexivity. }
-    rewrite Etxi, Eouts.
-    change [PT.txin_bytes i0] with (map PT.txin_bytes [i0]).
-    rewrite tx_bytes_spec by (constructor; [reflexivity | constructor]).
-    exists ss, (mk_tx version (map spec_in [i0]) (map spec_out outs) locktime).
-    split; [exact Ess|]. split; [reflexivity|]. split; [reflexivity|]. split; [reflexivity|]. split; [reflexivity|].
-    change (to_le 4 ht) with (u32le ht).
-    change (map spec_in [i0]) with [spec_in i0].
-    change ss with (ti_script (spec_in i0)) at 1.
-    apply legacy_preimage_one_input.
-    destruct Hht as [H|[H|[H Hl]]]; auto. right; right. split; [exact H|].
-    rewrite Eouts, !map_length in Hl. rewrite map_length. exact Hl.
+    induction 1 as [|[x txi] sel (L & ss & Hss & Rv & Rl & E) _ (ins & IH)]; [exists []; constructor|].
+    cbn [fst snd] in *.
+    exists (Bits.Spec.Bip143.mk_txin (rev (u_txid x)) (u_vout x) ss 0xffffffff :: ins). constructor; [|exact IH].
+    exists ss. cbn [fst snd]. split; [exact Hss|]. split; [reflexivity|]. split.
+    - rewrite E. rewrite txin_bytes_spec by reflexivity. reflexivity.
+    - unfold wf_txin. cbn. rewrite rev_length. repeat split; auto; lia.
   Qed.
-End Legacy.
+
+  Theorem unsigned_structured sender recipient change ki frac fee total unspents u version locktime :
+    build_unsigned p a n G sha256 ripemd160 scriptpubkey is_address sender recipient change ki frac fee total unspents = Ok u ->
+    (forall x, In x unspents -> length (u_txid x) = 32%nat) ->
+    0 <= version < 2 ^ 32 -> 0 <= locktime < 2 ^ 32 ->
+    exists t,
+      wf_tx t /\ tx_version t = version /\ tx_locktime t = locktime /\
+      map snd (us_selected u) = map ser_txin (tx_ins t) /\
+      us_txouts u = map ser_txout (tx_outs t) /\
+      Forall2 (selected_input ki) (us_selected u) (tx_ins t) /\
+      length (tx_outs t) = length (us_txouts u).
+  Proof.
+    intros Hb Hid Rv Rl.
+    pose proof (Bits.Proofs.Send.build_selected _ _ _ _ _ _ _ _ _ _ _ _ _ _ _ _ _ Hb) as Hsel.
+    destruct (Bits.Proofs.Send.build_outs _ _ _ _ _ _ _ _ _ _ _ _ _ _ _ _ _ Hb) as (outs & Eouts & Wouts & _).
+    destruct (selected_inputs_exist ki (us_selected u)) as (ins & Hins).
+    { eapply Forall_impl; [|exact Hsel]. intros xt (Hin & Hr). split; [apply Hid; exact Hin | exact Hr]. }
+    exists (mk_tx version ins (map spec_out outs) locktime).
+    assert (Eins : map snd (us_selected u) = map ser_txin ins).
+    { clear -Hins. induction Hins as [|xt i sel ins' (ss & _ & _ & E & _) _ IH]; [reflexivity|]. cbn [map]. now rewrite E, IH. }
+    assert (Wins : Forall wf_txin ins).
+    { clear -Hins. induction Hins as [|xt i sel ins' (ss & _ & _ & _ & W) _ IH]; constructor; auto. }
+    assert (Wo : Forall wf_txout (map spec_out outs)).
+    { rewrite Forall_forall in Wouts |- *. intros o Ho. apply in_map_iff in Ho as (mo & <- & Hmo).
+      apply Wouts in Hmo. exact Hmo. }
+    split; [unfold wf_tx; cbn [tx_version tx_locktime tx_ins tx_outs]; auto|].
+    cbn [tx_version tx_locktime tx_ins tx_outs].
+    split; [reflexivity|]. split; [reflexivity|]. split; [exact Eins|]. split; [|split; [exact Hins|]].
+    - rewrite Eouts, map_map. apply map_ext. intros o. apply txout_bytes_spec.
+    - rewrite Eouts, !map_length. reflexivity.
+  Qed.
+End Structured.
